@@ -17,7 +17,8 @@ LEVEL = "model_checking"
 CODE = ["yowsup/layers/protocol_messages/protocolentities/attributes/converter.py:AttributesConverter.* (all *_to_proto / proto_to_* / message_to_protobytes / protobytes_to_message)",
         "yowsup/layers/protocol_messages/protocolentities/protomessage.py + message_text.py + message_extendedtext.py (entity cases)",
         "yowsup/layers/protocol_messages/protocolentities/attributes/attributes_*.py"]
-BOUNDS = {"quick": "[+ duration = n/4, n in [0,2^20]; retry after refusal for image / video, top level and quoted] " 
+BOUNDS = {"quick": "[+ two replies with one stanza id] " 
+                   "[+ duration = n/4, n in [0,2^20]; retry after refusal for image / video, top level and quoted] " 
                    "[+ values handed to the attribute constructors as the expectation] " 
                    "11 content kinds x optional-field families {all set, none set, each single optional set}; every set field an unconstrained value of its type "
                    "(strings incl. empty, integers over the proto range incl. 0, opaque bytes of length 0..64, doubles); quoted message nesting depth <= 2; the same families as peer payloads "
